@@ -498,7 +498,7 @@ Proof. exact instance_draws_visits. Qed.
 Print Assumptions C12_cff2_instance_is_static.
 
 (* non-vacuity.  102 - 2^-17 (default 102, delta -1/8, scalar 2^-14): the fraction rounds up to
-   1.0 and carries into the integer part (before the fix 6abfa85 the carry was lost whenever the
+   1.0 and carries into the integer part (before the fix b33f0d4 the carry was lost whenever the
    integer part was odd: 101.0, one unit off); 100.25 keeps its fraction; a whole number is an
    Int; the encodings *)
 Example ex_cff2_carry : sv_from (102 * UNIT - 2147483648) = SFixed (102 * 65536).
